@@ -5,6 +5,10 @@
 
 package packetcache
 
+//@ -- the ring, its write position and the bookkeeping fields are only touched with the cache's mutex held - the slots themselves included
+//@ -- (an element pointer must not be used after the mutex has been released: a concurrent Store recycles the slot)
+//@ guarded Cache.mu: entries[*] tail last cycle lastValid expected totalExpected received totalReceived keyframe keyframeValid bitmap
+
 //@ spec cmp16(a uint16, b uint16) int = a == b ? 0 : (((b - a) & 0x8000) != 0 ? 1 : -1)
 //@ spec invalid16(s uint16, r uint16) bool = cmp16(r, s) >= 0 && r - s > 0x100
 //@
@@ -266,6 +270,8 @@ package packetcache
 //@   ematch
 //@   safe
 //@   props C05 C12
+//@   -- "called locked"
+//@   requires locked: held(cache.mu)
 //@   requires nonnil: cache != nil
 //@   requires wf: cwf(cache)
 //@   requires lens: lens(cache)
